@@ -102,4 +102,13 @@ MORE = [
                         return f"({self._generate_term(inner.left_term)} >= {self._generate_term(inner.right_term)})"
                     return f"({operator} {l_pred})"'''),
     dict(id="tuple_str_again", props=["C07", "C05"], file=G, old="            case tuple() | list():", new="            case frozenset():"),
+    dict(id="unroutable_runtime_error", props=["C02"], file=G,
+         old='return f"{self.indent()}raise ExperimentConditionalFailedError()"',
+         new='return f"{self.indent()}raise RuntimeError(\'no branch matched\')"'),
+    dict(id="unroutable_returns_none", props=["C02", "C07"], file=G,
+         old='return f"{self.indent()}raise ExperimentConditionalFailedError()"',
+         new='return f"{self.indent()}return None"'),
+    dict(id="parse_none_not_error", props=[], file=E,
+         old="            if ast is None:\n                raise ParseError()\n",
+         new="            if ast is None:\n                return\n"),
 ]
